@@ -266,35 +266,36 @@ package exec
 //@ spec func rank(t *Task) int
 //@ spec func tasksOK() bool = forall(x, implies((*Task)(x) != nil, TaskInit <= (*Task)(x).state && (*Task)(x).state <= TaskLost && forall(i, 0, len((*Task)(x).Group), (*Task)(x).Group[i] != nil && rank((*Task)(x).Group[i]) == rank((*Task)(x))) && forall(d, 0, len((*Task)(x).Deps), (*Task)(x).Deps[d].Head != nil && rank((*Task)(x).Deps[d].Head) < rank((*Task)(x)))))
 //@ spec func waitOK(s *state) bool = forall(h, implies(has(s.wait, (*Task)(h)), s.wait[(*Task)(h)] >= 0))
+//@ spec func depsOK(s *state) bool = forall(a, forall(b, implies(has(s.deps, (*Task)(a)) && has(s.deps[(*Task)(a)], (*Task)(b)), (*Task)(b) != nil)))
 //@ spec func memoDone(s *state, h *Task) bool = has(s.wait, h) && s.wait[h] == 0
 //@ spec func headOf(t *Task) *Task = ite(len(t.Group) == 0, t, t.Group[0])
 //@ spec func phaseOf(t *Task, x *Task) bool = ite(len(t.Group) == 0, x == t, exists(i, 0, len(t.Group), t.Group[i] == x))
 //@ spec func readyToStart(s *state, x *Task) bool = forall(d, 0, len(x.Deps), memoDone(s, headOf(x.Deps[d].Head)))
 
 //@ func exec.(*state).add
-//@   requires s != nil && stateOK(s)
-//@   ensures  stateOK(s)
+//@   requires s != nil && stateOK(s) && depsOK(s) && dst != nil
+//@   ensures  stateOK(s) && depsOK(s)
 //@   ensures  only-counts-of-dst: forall(x, implies((*Task)(x) != dst, s.counts[(*Task)(x)] == old(s.counts[(*Task)(x)])))
 //@   modifies s.deps[:], s.counts[:], maps(*Task, struct{})
 
 //@ func exec.(*state).clear
-//@   requires s != nil && stateOK(s) && task != nil
-//@   ensures  stateOK(s) && !has(s.counts, task)
+//@   requires s != nil && stateOK(s) && task != nil && depsOK(s)
+//@   ensures  stateOK(s) && !has(s.counts, task) && depsOK(s)
 //@   ensures  forall(x, implies((*Task)(x) != task, s.counts[(*Task)(x)] == old(s.counts[(*Task)(x)])))
 //@   modifies s.counts[:], maps(*Task, struct{})
-//@   loop 1 invariant stateOK(s) && !has(s.counts, task) && forall(x, implies((*Task)(x) != task, s.counts[(*Task)(x)] == old(s.counts[(*Task)(x)])))
+//@   loop 1 invariant stateOK(s) && depsOK(s) && !has(s.counts, task) && forall(x, implies((*Task)(x) != task, s.counts[(*Task)(x)] == old(s.counts[(*Task)(x)])))
 
 //@ func exec.(*state).done
-//@   requires s != nil && stateOK(s)
-//@   ensures  stateOK(s)
+//@   requires s != nil && stateOK(s) && depsOK(s)
+//@   ensures  stateOK(s) && depsOK(s) && forall(i, 0, len(ready), ready[i] != nil)
 //@   ensures  released-at-zero: forall(i, 0, len(ready), s.counts[ready[i]] == 0)
 //@   modifies s.counts[:]
-//@   loop 1 invariant stateOK(s) && (ready == nil || fresh(ready)) && forall(i, 0, len(ready), s.counts[ready[i]] == 0 && range_visited[ready[i]])
+//@   loop 1 invariant stateOK(s) && depsOK(s) && (ready == nil || fresh(ready)) && forall(i, 0, len(ready), s.counts[ready[i]] == 0 && range_visited[ready[i]]) && forall(i, 0, len(ready), ready[i] != nil)
 //@   loop 1 invariant forall(x, implies(!range_visited[x], s.counts[(*Task)(x)] == old(s.counts[(*Task)(x)])))
 
 //@ func exec.(*state).Enqueue (task) (nwait)
-//@   requires s != nil && stateOK(s) && task != nil && tasksOK() && waitOK(s)
-//@   ensures  stateOK(s) && nwait >= 0 && waitOK(s)
+//@   requires s != nil && stateOK(s) && task != nil && tasksOK() && waitOK(s) && depsOK(s)
+//@   ensures  stateOK(s) && nwait >= 0 && waitOK(s) && depsOK(s)
 //@   ensures  memo: has(s.wait, old(headOf(task))) && s.wait[old(headOf(task))] == nwait
 //@   ensures  wait-only-grows: forall(h, implies(old(has(s.wait, (*Task)(h))), has(s.wait, (*Task)(h)) && s.wait[(*Task)(h)] == old(s.wait[(*Task)(h)])))
 //@   ensures  todo-only-grows: forall(x, implies(old(s.todo[(*Task)(x)]), s.todo[(*Task)(x)]))
@@ -307,7 +308,7 @@ package exec
 //@   ensures  awaited-when-running-elsewhere: implies(!old(has(s.wait, headOf(task))), forall(x, implies(phaseOf(task, (*Task)(x)) && ((*Task)(x).state == TaskWaiting || (*Task)(x).state == TaskRunning), s.todo[(*Task)(x)] || s.pending[(*Task)(x)])))
 //@   ensures  started-only-when-ready: forall(x, implies(s.todo[(*Task)(x)] && !old(s.todo[(*Task)(x)]) && ((*Task)(x).state == TaskInit || (*Task)(x).state == TaskLost), readyToStart(s, (*Task)(x))))
 //@   modifies s.wait[:], s.todo[:], s.counts[:], s.deps[:], maps(*Task, struct{}), s.err
-//@   loop 1 invariant stateOK(s) && nwait >= 0 && tasksOK() && waitOK(s) && len(range_coll) >= 1 && forall(j, 0, len(range_coll), range_coll[j] != nil && rank(range_coll[j]) == rank(arg0))
+//@   loop 1 invariant stateOK(s) && nwait >= 0 && tasksOK() && waitOK(s) && depsOK(s) && len(range_coll) >= 1 && forall(j, 0, len(range_coll), range_coll[j] != nil && rank(range_coll[j]) == rank(arg0))
 //@   loop 1 invariant ph: forall(x, phaseOf(arg0, (*Task)(x)) == exists(j, 0, len(range_coll), range_coll[j] == (*Task)(x)))
 //@   loop 1 invariant wg: forall(h, implies(old(has(s.wait, (*Task)(h))), has(s.wait, (*Task)(h)) && s.wait[(*Task)(h)] == old(s.wait[(*Task)(h)])))
 //@   loop 1 invariant tg: forall(x, implies(old(s.todo[(*Task)(x)]), s.todo[(*Task)(x)])) && forall(x, s.pending[(*Task)(x)] == old(s.pending[(*Task)(x)]))
@@ -316,7 +317,7 @@ package exec
 //@   loop 1 invariant er: forall(j, 0, range_idx, implies(range_coll[j].state == TaskErr, s.err != nil)) && implies(old(s.err) != nil, s.err == old(s.err))
 //@   loop 1 invariant aw: forall(j, 0, range_idx, implies(range_coll[j].state == TaskWaiting || range_coll[j].state == TaskRunning, s.todo[range_coll[j]] || s.pending[range_coll[j]]))
 //@   loop 1 invariant rd: forall(x, implies(s.todo[(*Task)(x)] && !old(s.todo[(*Task)(x)]) && ((*Task)(x).state == TaskInit || (*Task)(x).state == TaskLost), readyToStart(s, (*Task)(x))))
-//@   loop 2 invariant stateOK(s) && nwait >= 0 && tasksOK() && waitOK(s)
+//@   loop 2 invariant stateOK(s) && nwait >= 0 && tasksOK() && waitOK(s) && depsOK(s)
 //@   loop 2 invariant tk: task != nil && rank(task) == rank(arg0) && range_coll == task.Deps
 //@   loop 2 invariant db: forall(d, 0, len(task.Deps), task.Deps[d].Head != nil && rank(task.Deps[d].Head) < rank(task))
 //@   loop 2 invariant wg: forall(h, implies(old(has(s.wait, (*Task)(h))), has(s.wait, (*Task)(h)) && s.wait[(*Task)(h)] == old(s.wait[(*Task)(h)])))
@@ -327,3 +328,44 @@ package exec
 //@   loop 2 invariant aw: forall(j, 0, range_idx1, implies(range_coll1[j].state == TaskWaiting || range_coll1[j].state == TaskRunning, s.todo[range_coll1[j]] || s.pending[range_coll1[j]]))
 //@   loop 2 invariant rd: forall(x, implies(s.todo[(*Task)(x)] && !old(s.todo[(*Task)(x)]) && ((*Task)(x).state == TaskInit || (*Task)(x).state == TaskLost), readyToStart(s, (*Task)(x))))
 //@   loop 2 invariant ry: implies(ready, forall(d, 0, range_idx, memoDone(s, headOf(task.Deps[d].Head))))
+
+//@ func exec.(*state).Return
+//@   requires s != nil && stateOK(s) && task != nil && tasksOK() && depsOK(s)
+//@   ensures  stateOK(s) && depsOK(s) && waitOK(s)
+//@   panics_if !s.pending[task]
+//@   ensures  no-longer-pending: !s.pending[task]
+//@   ensures  error-recorded: implies(task.state == TaskErr, s.err != nil)
+//@   ensures  error-sticky: implies(old(s.err) != nil && task.state != TaskErr, s.err == old(s.err))
+//@   ensures  lost-is-requeued: implies(task.state == TaskLost, has(s.wait, headOf(task)))
+//@   ensures  otherwise-awaited-again: implies(task.state == TaskInit || task.state == TaskWaiting || task.state == TaskRunning, s.todo[task])
+//@   ensures  others-stay-pending: forall(x, implies((*Task)(x) != task, s.pending[(*Task)(x)] == old(s.pending[(*Task)(x)])))
+//@   modifies s.wait, s.wait[:], s.todo[:], s.pending[:], s.counts[:], s.deps[:], maps(*Task, struct{}), s.err, maps(*Task, int)
+//@   loop 1 invariant stateOK(s) && tasksOK() && waitOK(s) && depsOK(s) && !s.pending[arg0] && forall(x, implies((*Task)(x) != arg0, s.pending[(*Task)(x)] == old(s.pending[(*Task)(x)]))) && implies(old(s.err) != nil, s.err == old(s.err)) && forall(j, 0, len(range_coll), range_coll[j] != nil)
+
+//@ extern func exec.TaskName.String
+//@   modifies nothing
+
+// ---- C03: loss accounting in the per-task watcher goroutine of Eval ----
+// Task.Wait releases the task lock: on return the task's state and error are arbitrary (interference by the
+// executor or another evaluator); the loss counter is only written by the runner's watcher.
+
+//@ extern func exec.(*Task).Wait
+//@   modifies t.state, t.err, t.waitc
+//@ extern func exec.(*evalStatus).markRunning
+//@   modifies nothing
+//@ extern func exec.(*evalStatus).markWaiting
+//@   modifies nothing
+//@ extern func exec.(*evalStatus).markDone
+//@   modifies nothing
+//@ extern func exec.TaskState.String
+//@   modifies nothing
+
+//@ func exec.Eval$1
+//@   requires task != nil && ctx != nil && executor != nil
+//@   ensures  reset-on-success: implies(runner && enableMaxConsecutiveLost && task.state == TaskOk, task.consecutiveLost == 0)
+//@   ensures  counted-on-loss: implies(runner && enableMaxConsecutiveLost && task.state == TaskLost, task.consecutiveLost == old(task.consecutiveLost) + 1 && task.consecutiveLost < maxConsecutiveLost)
+//@   ensures  error-after-max: implies(task.consecutiveLost != old(task.consecutiveLost) && task.consecutiveLost != 0, task.consecutiveLost == old(task.consecutiveLost) + 1 && implies(task.consecutiveLost >= maxConsecutiveLost, task.state == TaskErr && task.err != nil))
+//@   ensures  only-the-runner-counts: implies(!runner || !enableMaxConsecutiveLost, task.consecutiveLost == old(task.consecutiveLost))
+//@   modifies task.state, task.err, task.waitc, task.consecutiveLost
+//@   loop 1 invariant task.consecutiveLost == old(task.consecutiveLost)
+//@   loop 2 invariant task.consecutiveLost == old(task.consecutiveLost)
